@@ -11,7 +11,7 @@ RULE = ('cases = (gate program of length 0..14 over {rotation-generator gates, f
         'orientations} on ascending qubit tuples, N<=5, configuration in {uncompiled, layers compiled, circuit compiled} x {CliffordCircuit, '
         'Circuit} x {original, copy, copy of compiled, first half .compose(second half)}, input in {PauliList with phases, polynomial, state}); '
         'oracles: gate-by-gate application in insertion order and the reference Clifford product; non-trivial = at least 2 layers, a gate that '
-        'slid to an earlier layer, and an overlapping non-commuting pair; distinct = sha1 of the case')
+        'slid to an earlier layer, and an overlapping non-commuting pair; distinct = sha1 of the case; plus a coverage-guided atheris campaign (bytes -> program, same oracle) on circuit.py')
 ASSUMPTIONS = ['gates are deterministic (generator or a map given) and act on ascending qubit tuples (CNOT in both orientations)',
                'Circuit (the class with measurements) has no copy/compose: only the original is exercised']
 
@@ -202,3 +202,6 @@ FACETS = [
     Facet('torch/circuit-uncompiled', f_circuit, strategy=lambda t: st_case_torch(4, 8), examples={'quick': 300, 'thorough': 10000},
           shards={'quick': 2, 'thorough': 8}, backend='torch'),
 ]
+
+from harness.fuzzfacet import make_fuzz_facet
+FACETS.append(make_fuzz_facet('np/atheris-circuit', 'c09', {'circuit': f_circuit}, {'quick': 3000, 'thorough': 120000}, max_len=256))
